@@ -121,6 +121,19 @@ func runR19_2(c *Ctx, r *R) {
 			if isFieldCall2(call, "conns", "Store") {
 				stores = append(stores, call)
 			}
+			// a helper of the client called here (closeConns): the call is where its stores happen; a helper that
+			// sets the flag on every one of its paths counts as the Set
+			if h := call.Common().StaticCallee(); h != nil && h.Blocks != nil && h.Pkg == f.Pkg && h != f && typeIsRecv(h, "client") {
+				for _, c2 := range callsIn(h, true) {
+					if isFieldCall2(c2, "conns", "Store") {
+						stores = append(stores, call)
+						break
+					}
+				}
+				if mustCallsAtExit(h)["closed_.Set"] {
+					sets = append(sets, call)
+				}
+			}
 		}
 		ok := len(sets) > 0 && len(stores) > 0
 		for _, st := range stores {
